@@ -31,6 +31,9 @@ def corpus_cases(pid):
     return out
 
 
+PREMISES = ['wf_mm', 'ref_defaults_none', 'wf_typed', 'no_containment', 'op_many (every call)', 'op_appl (every call)']
+
+
 def run(ctx, out, pid, props, projection, n_quick, n_thorough, pool=None, weights=None, p_wrong=0.06,
         nops=12, extra_cases=(), nres=2, fixed_templates=None):
     thorough = ctx.tier == 'thorough'
@@ -60,6 +63,7 @@ def run(ctx, out, pid, props, projection, n_quick, n_thorough, pool=None, weight
             t = fixed_templates[i % len(fixed_templates)]
         cases.append(kgen.gen_case(rng, templates=t, nops=nops if not thorough else nops + 4, nres=nres,
                                    p_wrong=p_wrong, weights=weights, pool=pool))
+    premise_count = collections.Counter()
     for case in cases:
         case['history'] = [op for op in case['history'] if op[0] in kmodel.MODELLED]
         case, r = clean_case(case, props, need_views)
@@ -89,6 +93,18 @@ def run(ctx, out, pid, props, projection, n_quick, n_thorough, pool=None, weight
                 st['cases_with_diff'] += 1
                 break
         st['traces_validated'] += 1
+        # --- is the case inside the domain the theorems quantify over?  (boolean deciders of Model/Premises.v,
+        #     reflected into the Prop premises by Proofs/PremisesProofs.v) ---
+        try:
+            toks = kmodel.encode_mm(case)
+            for op in case['history']:
+                toks += kmodel.encode_op(op)
+            fl = model.ask('premises', toks)
+            for name, v in zip(PREMISES, fl):
+                premise_count[name] += int(v)
+            premise_count['all of wf_mm, ref_defaults_none, op_many (WF_history applies)'] += int(fl[0] and fl[1] and fl[4])
+        except Exception as e:  # noqa
+            out.notes.append(f'premise evaluation failed: {e!r}')
         # --- property oracle on the implementation ---
         if r.failure:
             f = krun.find_failure(case, props)
@@ -116,6 +132,7 @@ def run(ctx, out, pid, props, projection, n_quick, n_thorough, pool=None, weight
         'templates_used': dict(tmpl_count), 'history_lengths': dict(hist_len),
         'projection_compared': sorted(projection), 'oracles': sorted(props),
         'samples': samples,
+        'cases_meeting_theorem_premises': dict(premise_count),
     })
     out.assumptions += [
         'wf metamodels only (templates: opposite ends typed by each other\'s owner class, multi-valued ends of '
